@@ -21,19 +21,22 @@ from ..env import LoggerStub, ServerStub, boot
 
 META = {
     'text': 'TLC model-checks the funnel design (every way the cache changes x suppression windows x subscription '
-            'scopes) and, at code granularity in PlusCal, all interleavings of 2-3 threads doing reads/writes/'
-            'assignments/error announcements (StreamReconstructs, Ordered, NotifyUnderLock; the same model without '
-            'the update lock must fail). Every history TLC enumerates (all histories to a depth + one per transition '
-            'of the abstract state graph) is replayed on real Module subclasses over a datatype catalogue with a '
-            'real Dispatcher and fake connections under a virtual clock; cache, message stream and its client-side '
-            'replay are compared with the specification after every step. Seeded random long histories and '
-            'controlled multi-thread executions are validated by TLC against Trace_ParamCache. Bounded (depth, '
-            '2-4 parameters, 2-4 values, 3 connections, <=3 threads), exhaustive inside the Gen bound.',
+            'scopes over two modules, unexported parameters, activate / deactivate / ident, explicit timestamps, '
+            'nested reads, operations that must change nothing) and, at code granularity in PlusCal, all '
+            'interleavings of 2-3 threads doing reads/writes/assignments/error announcements (StreamReconstructs, '
+            'Ordered, NotifyUnderLock; the same model without the update lock must fail). Every history TLC '
+            'enumerates (all histories to a depth + one per transition of the abstract state graph) is replayed on '
+            'real Module subclasses over a datatype catalogue with a real Dispatcher and fake connections under a '
+            'virtual clock at a realistic epoch; cache, message stream, its client-side replay and internal '
+            'parameter callbacks are compared with the specification after every step. Seeded random long '
+            'histories and controlled multi-thread executions are validated by TLC against Trace_ParamCache. '
+            'Bounded (depth, 2-4 parameters, 2-4 values, 3 connections, <=3 threads), exhaustive inside the Gen bound.',
     'note': 'Trusted: TLC; the alpha/gamma tables of harness/props/c05.py (value/error interning, virtual clock '
             'rebinding of the time source in frappy.modulebase, instrumented accessLock/updateLock objects). '
             'Thread schedules are controlled at pause points (driver functions, send_reply) and lock hand-over, '
-            'not at line level; activation racing with updates belongs to C08. The suppression clauses follow the '
-            'documented semantics of update_unchanged / omit_unchanged_within.',
+            'not at line level (c05_sched.py does that for the activation races). The suppression clauses follow '
+            'the documented semantics of update_unchanged / omit_unchanged_within; a value that was never stamped '
+            'counts as infinitely old.',
     'tech': 'TLA+ / PlusCal specs (ParamCache.tla, ParamCacheConc.tla) + TLC model checking; spec->code replay of '
             'TLC-enumerated behaviours; code->spec TLC trace validation incl. controlled real threads',
     'ref': 'DESIGN.md section 5 C05',
